@@ -82,9 +82,14 @@ def tpl_set(proto, tid, fields, nscope=0):
     return struct.pack(">HH", 2 if proto == "ipfix" else 0, 4 + len(rec)) + rec
 
 
-def data_set(tid, fields, rng, nrec=2):
-    recs = b"".join(bytes(rng.randrange(256) for _ in range(sum(l for _, l in fields))) for _ in range(nrec))
-    return struct.pack(">HH", tid, 4 + len(recs)) + recs
+def data_set(tid, fields, rng, nrec=2, pad=None):
+    """a data set of nrec records; pad = octets of set padding (None: half of the sets get 1..3 zero octets, fewer than
+    the record length, as an exporter aligning its sets to 4 octets sends them)"""
+    rl = sum(l for _, l in fields)
+    recs = b"".join(bytes(rng.randrange(256) for _ in range(rl)) for _ in range(nrec))
+    if pad is None:
+        pad = rng.randint(1, min(3, rl - 1)) if rl > 1 and rng.random() < 0.5 else 0
+    return struct.pack(">HH", tid, 4 + len(recs) + pad) + recs + bytes(pad)
 
 
 class Vflow:
